@@ -316,6 +316,8 @@ func makeValue(real bool, duty core.Duty, keyIdx int, sub uint64, variant, id in
 
 		return reg, nil
 	case core.DutyProposer:
+		blockHash := rootBytes(salt, keyIdx, 105)
+
 		return core.NewVersionedSignedProposal(&eth2api.VersionedSignedProposal{
 			Version: eth2spec.DataVersionPhase0,
 			Phase0: &eth2p0.SignedBeaconBlock{
@@ -323,7 +325,7 @@ func makeValue(real bool, duty core.Duty, keyIdx int, sub uint64, variant, id in
 					Slot: slot, ProposerIndex: vidx, ParentRoot: rootBytes(salt, keyIdx, 103), StateRoot: root,
 					Body: &eth2p0.BeaconBlockBody{
 						RANDAOReveal:      sigBytes(salt, 1<<24+keyIdx),
-						ETH1Data:          &eth2p0.ETH1Data{DepositRoot: rootBytes(salt, keyIdx, 104), BlockHash: rootBytes(salt, keyIdx, 105)[:]},
+						ETH1Data:          &eth2p0.ETH1Data{DepositRoot: rootBytes(salt, keyIdx, 104), BlockHash: blockHash[:]},
 						Graffiti:          rootBytes(salt, keyIdx, 106),
 						ProposerSlashings: []*eth2p0.ProposerSlashing{},
 						AttesterSlashings: []*eth2p0.AttesterSlashing{},
